@@ -27,10 +27,15 @@ def run(ck, ctx):
                      "cache is configured (with N shards a script cached by one shard's EVAL must be known to EVALSHA / SCRIPT EXISTS / "
                      "SCRIPT FLUSH on every shard)")
     ck.nd("equality of replies for arbitrary command sequences (needs execution); aggregation arithmetic")
+    ck.rule("R03.8", "the batched pipelines answer like one shard: every key of a pipelined GET/SET batch is queued for its shard on every path "
+                     "of the bucketing loop and each reply slot is filled from that key's own shard response (shared with C02 R02.7)")
     for cfg in ctx.configs:
         prog = ctx.prog(cfg)
         ck.configs.append(cfg)
         ck.fn_count += len(prog.fns)
+        from . import c02 as _c02
+        from .core import Alias as _Alias
+        _c02._r027(_Alias(ck, "R02.7", "R03.8"), prog, cfg)
         _r031(ck, prog, cfg)
         _r032(ck, prog, cfg)
         _r033_034(ck, prog, cfg)
